@@ -1,11 +1,14 @@
 #!/bin/bash
 # run_harmless.sh DIFF... : apply a behaviour-preserving change to /repo, run every check whose units extract from a changed file,
 # revert.  Expected: PASS or UNDECIDED, never VIOLATION.
+# With WT=<scratch worktree of /repo> the change is applied there and the checks read that tree (VERIF_REPO), with their evidence and
+# replays under /tmp, so the run neither touches /repo nor the committed records.
 cd /verif
-rm -rf /tmp/evidence_backup && cp -r evidence /tmp/evidence_backup
+R=${WT:-/repo}
+if [ -n "$WT" ]; then export VERIF_REPO=$WT VERIF_EVIDENCE=/tmp/evid-alt VERIF_REPLAYS=/tmp/replays-alt; mkdir -p /tmp/evid-alt /tmp/replays-alt; else rm -rf /tmp/evidence_backup && cp -r evidence /tmp/evidence_backup; fi
 for D in "$@"; do
-  D=$(readlink -f "$D"); git -C /repo apply "$D" 2>/dev/null || { echo "$D: DOES NOT APPLY"; continue; }
-  FILES=$(git -C /repo diff --name-only)
+  D=$(readlink -f "$D"); git -C $R apply "$D" 2>/dev/null || { echo "$D: DOES NOT APPLY"; continue; }
+  FILES=$(git -C $R diff --name-only)
   PROPS=$(python3 - $FILES <<'PY'
 import sys,re,glob
 files=sys.argv[1:]
@@ -25,7 +28,7 @@ PY
     if grep -q '^VIOLATION' /tmp/harmless_$P.out; then echo "  FALSE-ALARM? $D $P: $(grep '^VIOLATION' /tmp/harmless_$P.out | head -2)"; fi
     if ! grep -q '^PASS' /tmp/harmless_$P.out; then grep '^UNDECIDED' /tmp/harmless_$P.out | head -3 | cut -c1-300 | sed 's/^/    /'; fi
   done
-  git -C /repo checkout -- .
+  git -C $R checkout -- .
   echo "$D: files=[$FILES] verdicts:$RES"
 done
-rm -rf evidence && cp -r /tmp/evidence_backup evidence
+[ -z "$WT" ] && { rm -rf evidence && cp -r /tmp/evidence_backup evidence; }
